@@ -453,6 +453,22 @@ func TestVerifC06(t *testing.T) {
 		}
 		t.Fatalf("scenario %q not found", rp.Scenario)
 	}
+	if vs.FreeMode() {
+		// free-running pass for the race detector (validates the data-race-freedom assumption of the scheduler)
+		r := vrep.New("C06", "race-pass")
+		dl := vrep.Deadline()
+		n := 0
+		for time.Now().Before(dl) {
+			for _, sc := range scs {
+				runs, _ := vs.FreeRun(t, c06Scenario(sc), 3, dl)
+				n += runs
+			}
+		}
+		r.Executions = int64(n)
+		r.Note("free-running executions: %d", n)
+		r.Flush()
+		return
+	}
 	si, sn := vrep.Shard()
 	bound := 2
 	if vrep.Thorough() {
